@@ -244,6 +244,7 @@ def guards(rep, meths):
                            and pure_projection(meths[c], T, guarded=True)}
     # reverse pairs: the tensor T guards on components c whose whole method is self[T][i]
     reverse = {}
+    unproved_b = set()
     for name, k, _neg, _node in guard_sites:
         if k in meths and pure_projection(meths[k], name, guarded=False):
             reverse.setdefault(name, set()).add(k)
@@ -402,13 +403,22 @@ def guards(rep, meths):
                         "how": "both branches expanded to the inputs are one polynomial"})
                 continue
             rep.ok("guard/alternative-derivation", key,
-                   {"class": "B", "assumed identity": CLASS_B[(name, k)]})
+                   {"class": "B", "assumed identity": CLASS_B[(name, k)],
+                    "each branch": "compared with the defining formula of its configuration"})
+            unproved_b.add(name)
         elif name in ("rho0", "eps"):
             pass    # handled by the cycle rule
         else:
             rep.unverified("guard/alternative-derivation", key,
                            "new alternative-derivation guard: equality of its branches is "
                            "not established by this check")
+    # The two branches of an alternative-derivation guard are equal only through an identity of
+    # the formalism; what the check can demand of each branch is that it is the defining formula
+    # of the quantity for its own configuration (both are, today): a branch that drifts away
+    # from it makes the value depend on what happened to be cached.
+    if unproved_b:
+        from ..tcheck import check_keys
+        check_keys(rep, sorted(unproved_b), label="alternative derivations")
     return partners, reverse
 
 
